@@ -10,7 +10,7 @@ RULE = ("generated (template set, data, configuration); every entry point (rende
         "render_with_context_to_write, render_template, render_template_with_context(_to_write), render_template_to_write, "
         "and a Template precompiled with the same name registered via register_template) must give the same bytes or the "
         "same error; the batch is repeated in a permuted order (all orders for batches ≤ 4 in thorough), from a clone of the "
-        "registry, and from 2..16 threads sharing one registry; the model evaluates every call separately; non-trivial = "
+        "registry, from a clone with the other prevent_indent setting (history independence), and from 2..16 threads sharing one registry; the model evaluates every call separately; non-trivial = "
         "the render succeeds with non-empty output or fails with a render error; distinct by case")
 DEFINITE_FLOOR = 0.9
 ASSUMPTIONS = ["OS thread schedules are outside the Lean model (pure functions cannot race); the thread part rests on the compile-time fact Handlebars: Send + Sync + Clone, on the absence of interior mutability, and on these runs"]
@@ -84,6 +84,17 @@ def gen_case(rng, i, tier):
     batch.append({"op": "render", "reg": 1, "api": "render", "name": "main", "data": d})
     batch.append({"op": "render_mt", "reg": 0, "api": "render", "name": "main", "data": d, "threads": rng.pick([2, 4, 8, 16])})
     batch.append({"op": "render_mt", "reg": 0, "api": "render_template", "src": main, "data": d, "threads": rng.pick([2, 3, 5])})
+    # history independence across registries: the same template string through render_template on a registry with the OTHER
+    # prevent_indent setting, directly after this one rendered it, and again after something else was rendered in between
+    isrc = "i\n    {{> mlp}}\nj"
+    ops = ops + [{"op": "reg_string", "reg": 0, "name": "mlp", "src": "m1\nm2\n"}]
+    k0 = len(ops) + len(batch)
+    batch += [{"op": "render", "reg": 0, "api": "render_template", "src": isrc, "data": d, "same": "A"},
+              {"op": "set_prevent_indent", "reg": 1, "v": not cfg["prevent_indent"]},
+              {"op": "render", "reg": 1, "api": "render_template", "src": isrc, "data": d, "same": "B"},
+              {"op": "render", "reg": 1, "api": "render_template", "src": "other", "data": d},
+              {"op": "render", "reg": 1, "api": "render_template", "src": isrc, "data": d, "same": "B"},
+              {"op": "render", "reg": 0, "api": "render_template", "src": isrc, "data": d, "same": "A"}]
     return {"kind": "session", "regs": [cfg], "ops": ops + batch}, {"ncalls": len(batch), "pi": cfg["prevent_indent"]}
 
 
@@ -116,8 +127,17 @@ def oracle(case, meta, impl):
     v = []
     ref = None
     named_name = None
+    same = {}
     for op, r in zip(ops, rs):
         if op["op"] not in ("render", "render_mt"):
+            continue
+        if op.get("same"):
+            c = canon(r)
+            if op["same"] in same and same[op["same"]] != c:
+                v.append("render_template of the same string on the same registry gave %s, earlier %s (the result depends on what was rendered before)" % (str(c)[:120], str(same[op["same"]])[:120]))
+            same.setdefault(op["same"], c)
+            continue
+        if op.get("src") == "other":
             continue
         if r.get("r") == "mt_disagree":
             v.append("concurrent renders disagree with the sequential one")
